@@ -4,7 +4,7 @@ from __future__ import annotations
 import ast
 
 from engine.defuse import value_sources
-from engine.flow import dominating_guards, reachable_from_entry, returns_of
+from engine.flow import expand_aliases, dominating_guards, reachable_from_entry, returns_of
 
 META = {
     "explanation": (
@@ -143,8 +143,29 @@ def check(ctx):
     for cname, names in (("Schema", ("__getitem__", "__setitem__")), ("Config", ("__getitem__", "__setitem__", "__contains__"))):
         for nm in names:
             f = model.method(cname, nm)
-            rec = [x for x in ast.walk(f.node) if isinstance(x, ast.Call) and isinstance(x.func, ast.Attribute) and x.func.attr == nm]
-            okr = bool(rec) and all(x.args and isinstance(x.args[0], ast.Name) and "sub" in x.args[0].id for x in rec)
+            # the recursive step: the same operation (method call, or the operator it implements) applied with the *remainder*
+            # of the path, i.e. the third component of path.partition('.') -- under whatever local name
+            pparam = f.positional_params[1]
+
+            def is_remainder(e):
+                if not isinstance(e, ast.Name):
+                    return False
+                srcs = value_sources(f, e, None)
+                def from_path(pl):
+                    call = pl[0]
+                    return pl[1] == 2 and isinstance(call, ast.Call) and isinstance(call.func, ast.Attribute) and call.func.attr == "partition" \
+                        and isinstance(call.func.value, ast.Name) and all(k2 == "param" and p2 == pparam for k2, p2 in value_sources(f, call.func.value, None) or [("?", 0)])
+                return bool(srcs) and all(k == "unpack" and from_path(pl) for k, pl in srcs)
+            rec = []
+            for x in ast.walk(f.node):
+                if isinstance(x, ast.Call) and isinstance(x.func, ast.Attribute) and x.func.attr == nm and x.args:
+                    rec.append(x.args[0])
+                elif nm in ("__getitem__", "__setitem__") and isinstance(x, ast.Subscript) and isinstance(x.slice, ast.Name) and is_remainder(x.slice) \
+                        and isinstance(x.ctx, ast.Load if nm == "__getitem__" else ast.Store):
+                    rec.append(x.slice)
+                elif nm == "__contains__" and isinstance(x, ast.Compare) and len(x.ops) == 1 and isinstance(x.ops[0], ast.In) and is_remainder(x.left):
+                    rec.append(x.left)
+            okr = bool(rec) and all(is_remainder(a) for a in rec)
             ctx.ob("walker.recurses-on-remainder", f, "%s.%s(subkey, ...)" % (cname, nm), okr,
                    "the remainder of the path is resolved by the same operation on the nested object" if okr else
                    "%s.%s does not recurse with the remainder of the path" % (cname, nm))
@@ -187,16 +208,56 @@ def check(ctx):
             if tr and "storage_type" in ast.unparse(t.ast):
                 st = ast.unparse(t.ast)
         by_type.setdefault(st, []).append((n, act))
-    scalar = [v for k, v in by_type.items() if k and "str" in k and "int" in k and "float" in k]
-    boolean = [v for k, v in by_type.items() if k and "bool" in k]
-    oks = len(scalar) == 1 and len(scalar[0]) == 1 and scalar[0][0][1] in ("store", None)
-    ctx.ob("parser.one-option-per-scalar", gp, "storage_type in (str, float, int)", oks, "exactly one storing option for str/int/float fields" if oks else
-           "scalar fields do not get exactly one storing option")
-    okb = len(boolean) == 1 and sorted(a for _, a in boolean[0]) == ["store_false", "store_true"]
+    # the parser generator specialised per storage type: which add_argument calls remain
+    from engine.specialize import Spec
+    gpg = an.cfg(gp)
+
+    def st_decider(stype):
+        def names_of(e, node):
+            e = expand_aliases(gp, e, node)
+            if isinstance(e, ast.Name):
+                srcs = value_sources(gp, e, node)
+                if len(srcs) == 1 and srcs[0][0] == "expr" and isinstance(srcs[0][1], (ast.Tuple, ast.List, ast.Set)):
+                    e = srcs[0][1]
+            els = e.elts if isinstance(e, (ast.Tuple, ast.List, ast.Set)) else [e]
+            return [x.id if isinstance(x, ast.Name) else None for x in els]
+
+        def is_st(e, node):
+            e2 = expand_aliases(gp, e, node)
+            return isinstance(e2, ast.Attribute) and e2.attr == "storage_type"
+
+        def decide(e, node):
+            if isinstance(e, ast.Compare) and len(e.ops) == 1 and is_st(e.left, node):
+                ns = names_of(e.comparators[0], node)
+                if None in ns:
+                    return None
+                hit = stype in ns
+                if isinstance(e.ops[0], (ast.In, ast.Is, ast.Eq)):
+                    return hit
+                if isinstance(e.ops[0], (ast.NotIn, ast.IsNot, ast.NotEq)):
+                    return not hit
+            if isinstance(e, ast.Call) and isinstance(e.func, ast.Name) and e.func.id == "isinstance" and len(e.args) == 2:
+                spec = an.ft(gp).class_spec(e.args[1], {}) or []
+                if spec == ["Field"]:
+                    return True
+            return None
+        return decide
+    per_type = {}
+    for stype in ("str", "int", "float", "bool", "bytes"):
+        sp = Spec(an, gp, st_decider(stype))
+        per_type[stype] = [(n, act) for n, act in ((n, next((a for m, a in [(x, y) for v in by_type.values() for x, y in v] if m is n), None)) for n in adds)
+                           if n in sp.normal]
+    scalar_ok = all(len(per_type[t]) == 1 and per_type[t][0][1] in ("store", None) for t in ("str", "int", "float"))
+    ctx.ob("parser.one-option-per-scalar", gp, "storage_type in (str, float, int)", scalar_ok, "exactly one storing option for str/int/float fields" if scalar_ok else
+           "scalar fields do not get exactly one storing option (%s)" % {t: [a for _, a in per_type[t]] for t in ("str", "int", "float")})
+    okb = sorted(str(a) for _, a in per_type["bool"]) == ["store_false", "store_true"]
     ctx.ob("parser.on-off-for-bool", gp, "storage_type is bool", okb, "booleans get an on switch and an off switch" if okb else
-           "boolean fields do not get exactly one on and one off switch")
-    if boolean and len(boolean[0]) == 2:
-        names = [n.ast.args[0] if n.ast.args else None for n, _ in boolean[0]]
+           "boolean fields do not get exactly one on and one off switch (%s)" % [a for _, a in per_type["bool"]])
+    oko = not per_type["bytes"]
+    ctx.ob("parser.no-option-for-others", gp, "any other storage type", oko, "fields of other kinds get no option" if oko else
+           "a field that is neither scalar nor boolean gets a command-line option")
+    if len(per_type["bool"]) == 2:
+        names = [n.ast.args[0] if n.ast.args else None for n, _ in per_type["bool"]]
         dif = len({ast.unparse(x) for x in names if x is not None}) == 2
         ctx.ob("parser.on-off-distinct", gp, "on/off option strings", dif, "the two switches have different option strings" if dif else "on and off switch share one option string")
     # only Fields, and the option string derives from the path
